@@ -381,6 +381,42 @@ func enumMutants(root *jmut.Node, from, to int, fn func(name string, n *jmut.Nod
 	return len(paths)
 }
 
+var c14jsonTag = regexp.MustCompile("json:\"([A-Za-z0-9_$-]+)")
+
+// c14vocabulary collects every JSON member name declared in the non-test Go
+// sources of the repository.
+func c14vocabulary() []string {
+	seen := map[string]bool{}
+	_ = filepath.Walk(ev.Repo(), func(p string, info os.FileInfo, err error) error {
+		if err != nil {
+			return nil
+		}
+		if info.IsDir() {
+			if n := info.Name(); n == ".git" || n == "data" || n == "examples" || n == "node_modules" {
+				return filepath.SkipDir
+			}
+			return nil
+		}
+		if !strings.HasSuffix(p, ".go") || strings.HasSuffix(p, "_test.go") {
+			return nil
+		}
+		b, err := os.ReadFile(p)
+		if err != nil {
+			return nil
+		}
+		for _, m := range c14jsonTag.FindAllSubmatch(b, -1) {
+			seen[string(m[1])] = true
+		}
+		return nil
+	})
+	var out []string
+	for k := range seen {
+		out = append(out, k)
+	}
+	sort.Strings(out)
+	return out
+}
+
 type c14altSet struct{ regimes, addons, schemas []string }
 
 var c14altsOnce sync.Once
@@ -432,6 +468,7 @@ type c14job struct {
 	Seed int64  `json:"seed,omitempty"`
 	N    int    `json:"n,omitempty"`
 	Only string `json:"only,omitempty"` // run just this case name (re-run of a suspect)
+	Keys []string `json:"keys,omitempty"` // "addkey": member names to add at position From
 }
 
 func childC14(args []string) int {
@@ -496,6 +533,35 @@ func childC14(args []string) int {
 		pairCases(job.File, job.Seed, job.N, func(name string, data []byte) { run(name, data) })
 	case "gen":
 		genCases(job.Seed, job.N, func(name string, data []byte) { run(name, data) })
+	case "addkey":
+		b, err := os.ReadFile(job.File)
+		if err != nil {
+			return 2
+		}
+		root, err := jmut.Parse(b)
+		if err != nil {
+			return 2
+		}
+		var paths []jmut.Path
+		root.Walk(func(p jmut.Path, x *jmut.Node) { paths = append(paths, p) })
+		if job.From >= len(paths) {
+			return 2
+		}
+		p := paths[job.From]
+		if root.At(p) == nil || root.At(p).K != jmut.Obj {
+			return 2
+		}
+		vals := []*jmut.Node{jmut.Ar(), jmut.O(), jmut.S(""), jmut.Ar(jmut.Nl()), jmut.N("0")}
+		for _, k := range job.Keys {
+			if root.At(p).Get(k) != nil {
+				continue
+			}
+			for vi, v := range vals {
+				d := root.Clone()
+				d.At(p).Set(k, v.Clone())
+				run(fmt.Sprintf("%s:add-member %s=v%d", p.String(), k, vi), d.Bytes())
+			}
+		}
 	}
 	fmt.Fprintf(prog, "done\n")
 	out := map[string]any{"findings": dedupe(r.findings), "stats": r.stats}
@@ -659,6 +725,41 @@ func runC14(c *Ctx) {
 	rawN := c.N(4000, 400000)
 	for i := 0; i < 16; i++ {
 		jobs = append(jobs, c14job{Kind: "raw", Seed: c.Seed*1000 + int64(i), N: rawN / 16})
+	}
+	// members a document does not carry, from the vocabulary of every member name
+	// the library's Go sources declare (json tags, incl. those only read by
+	// UnmarshalJSON helpers for older document versions): each name is added, with
+	// five empty-ish values, to the first object found of every position class
+	{
+		vocab := c14vocabulary()
+		c.R.Set("member_name_vocabulary", len(vocab))
+		seenClass := map[string]bool{}
+		for _, it := range items {
+			root, err := jmut.Parse(it.Data)
+			if err != nil {
+				continue
+			}
+			idx := -1
+			root.Walk(func(p jmut.Path, x *jmut.Node) {
+				idx++
+				if x.K != jmut.Obj || len(p) == 0 || !strings.HasPrefix(p.Class(), "doc") {
+					return
+				}
+				cl := it.Type + ":" + p.Class()
+				if seenClass[cl] {
+					return
+				}
+				seenClass[cl] = true
+				for k := 0; k < len(vocab); k += 150 {
+					end := k + 150
+					if end > len(vocab) {
+						end = len(vocab)
+					}
+					jobs = append(jobs, c14job{Kind: "addkey", File: it.Path, From: idx, Keys: vocab[k:end]})
+				}
+			})
+		}
+		c.R.Set("object_position_classes", len(seenClass))
 	}
 	genN := c.N(3200, 160000)
 	for i := 0; i < 16; i++ {
